@@ -525,6 +525,28 @@ mut('C09', 'zincparser', "            Suppress(Regex(r' *\\]')) \\\n", "        
 mut('C09', 'zincparser', "        return hs_scalar[version].parseString(scalar_data, parseAll=True)[0]", "        return hs_scalar[version].parseString(scalar_data)[0]", name='scalar parse without parseAll')
 mut('C09', 'datatypes', "                self.data = bytearray.fromhex(data)", "                self.data = HEX_TABLE[data]", 'OK', name='(unknown callee: not judged)')
 
+# ---- C17 -----------------------------------------------------------------------------
+mut('C17', 'zoneinfo', "        if dt.astimezone(pytz.timezone(olson_name)).utcoffset() == offset:", "        if pytz.timezone(olson_name).utcoffset(dt.replace(tzinfo=None)) == offset:", name='revert fix: wall-time utcoffset in the scan')
+mut('C17', 'zoneinfo', "        if dt.astimezone(pytz.timezone(olson_name)).utcoffset() == offset:\n            return haystack_name", "        if True:\n            return haystack_name", name='scan returns the first zone')
+mut('C17', 'zoneinfo', "    if offset == datetime.timedelta(0):\n        # UTC?\n        return 'UTC'", "    if offset <= datetime.timedelta(hours=1):\n        # UTC?\n        return 'UTC'", name='UTC shortcut too generous')
+mut('C17', 'zoneinfo', "        _TZ_RMAP = dict([(z,n) for (n,z) in list(_TZ_MAP.items())])", "        _TZ_RMAP = dict([(z,n.lower()) for (n,z) in list(_TZ_MAP.items())])", name='reverse map not the swap')
+mut('C17', 'zoneinfo', "        if suffix in todo:\n            tz_map[suffix] = full_tz\n            todo.discard(suffix)\n            continue", "        if suffix in HAYSTACK_TIMEZONES_SET:\n            tz_map[suffix] = full_tz\n            continue", name='suffix re-mapped by later zones')
+mut('C17', 'zincparser', "            return [isodt.astimezone(tz)]", "            return [isodt.replace(tzinfo=tz)]", name='zinc reader replace(tzinfo)')
+mut('C17', 'jsonparser', "                return isodate.astimezone(tz)", "                return tz.localize(isodate.replace(tzinfo=None))", name='json reader localize')
+mut('C17', 'zincdumper', "    return '%s %s' % (date_time.isoformat(), tz_name)", "    return '%s %s' % (date_time.astimezone(pytz.utc).isoformat(), tz_name)", name='writer converts to UTC but keeps the zone name')
+mut('C17', 'zoneinfo', "    raise ValueError('Unable to get timezone of %r' % dt)", "    return 'UTC'", name='unmappable tz written as UTC')
+mut('C17', 'zoneinfo', "    except AttributeError:\n        # Not a pytz-compatible tzinfo\n        pass\n", "", name='AttributeError no longer caught')
+
+# ---- C07 -----------------------------------------------------------------------------
+mut('C07', 'jsondumper', "    _meta = dict(map(_dump, list(meta.items())))\n    if grid:\n        _meta['ver'] = str(version)\n    return _meta", "    if grid:\n        meta['ver'] = str(version)\n    _meta = dict(map(_dump, list(meta.items())))\n    return _meta", name='ver stored into the grid metadata itself')
+mut('C07', 'zincdumper', "    return ','.join([dump_scalar(row.get(c), version=grid.version) for \\\n                     c in list(grid.column.keys())])", "    return ','.join([dump_scalar(row.pop(c, None), version=grid.version) for \\\n                     c in list(grid.column.keys())])", name='row.pop instead of row.get')
+mut('C07', 'zincdumper', "def dump_rows(grid):\n    return list(map(functools.partial(dump_row, grid), grid))", "def dump_rows(grid):\n    grid.reverse()\n    return list(map(functools.partial(dump_row, grid), grid))", name='rows reversed in place')
+mut('C07', 'jsondumper', "def dump_column(col, col_meta, version=LATEST_VER):\n    if bool(col_meta):\n        _meta = dump_meta(col_meta, version=version)\n    else:\n        _meta = {}", "def dump_column(col, col_meta, version=LATEST_VER):\n    if bool(col_meta):\n        _meta = dump_meta(col_meta, version=version)\n    else:\n        _meta = col_meta", name='column meta aliased then name stored into it')
+mut('C07', 'zincdumper', "    return ' '.join(map(_dump, list(meta.items())))", "    return ' '.join(map(_dump, set(meta.items())))", name='metadata items iterated through a set')
+mut('C07', 'jsondumper', "    elif isinstance(scalar, Coordinate):\n        return dump_coord(scalar, version=version)\n", "", name='JSON ladder loses Coordinate')
+mut('C07', 'zincdumper', "        if Version.nearest(version) < VER_3_0:\n            raise ValueError('Project Haystack version %s ' \\\n                             'does not support dicts' \\", "        if version < VER_3_0:\n            raise ValueError('Project Haystack version %s ' \\\n                             'does not support dicts' \\", name='raw version compare in zinc dict gate')
+mut('C07', 'zoneinfo', "    for full_tz in pytz.all_timezones:", "    for full_tz in set(pytz.all_timezones):", name='zone map built by iterating a set')
+
 
 def run(selected):
     base_cache = {}
